@@ -436,5 +436,6 @@ example : coalesce [.rd 0 3, .wr 1, .wr 2, .wr 3, .rd 3 0, .wr 4] = [.rd 0 3, .w
 #print axioms Xt.Props.C03.chunker_buffer_bounded
 #print axioms Xt.Props.C09.capture_released
 #print axioms Xt.Props.C09.toml_trial_capped
+#print axioms Xt.Props.C09.detect_reads_first_doc_only
 
 end Xt.Props.C05
